@@ -279,7 +279,9 @@ def run(repo: Repo, ctx) -> None:
            sample=f'add L{a_add} < copy L{a_copy} < drop L{a_drop}')
     guard = [n for st in into_src for n in ast.walk(st)
              if isinstance(n, ast.If)
-             and norm(n.test) == 'not types.has_table(ptr, schema)'
+             and any(isinstance(c, ast.Call) and norm(c) ==
+                     'types.has_table(ptr, schema)' and _negated(n.test, c)
+                     for c in ast.walk(n.test))
              and any(isinstance(x, ast.Call) and norm(x.func) ==
                      'dbops.DropTable' for x in ast.walk(n))]
     ctx.ob('C05.R5', 'multi->single:drop-guarded-by-has_table', bool(guard),
@@ -306,3 +308,235 @@ def run(repo: Repo, ctx) -> None:
            'an arm creates or drops the storage kind it is supposed to '
            'move data out of / into', f.loc,
            sample='each arm: one create and one drop of opposite kinds')
+
+    _r6(repo, ctx)
+    _r7(repo, ctx)
+
+
+TYPES = 'edb.pgsql.types'
+
+
+def _name_rule(repo: Repo, mod, node_or_stmts, depth: int = 0, fn_node=None):
+    """Column-naming decisions in a block: list of
+       (table_type, kind, consts, prefixes)
+    kind 'by-name': the column is the pointer's short name when it is one of
+    consts / starts with one of prefixes, else its id; kind 'const': fixed."""
+    out = []
+    stmts = node_or_stmts
+
+    def name_test(t):
+        """(consts, prefixes) if t tests the pointer's short name"""
+        consts, prefixes = set(), set()
+        hit = False
+        for n in ast.walk(t):
+            if isinstance(n, ast.Compare) and len(n.ops) == 1:
+                c = n.comparators[0]
+                if isinstance(n.ops[0], ast.Eq) and isinstance(
+                        c, ast.Constant) and isinstance(c.value, str):
+                    consts.add(c.value)
+                    hit = True
+                elif isinstance(n.ops[0], ast.In) and isinstance(
+                        c, (ast.Tuple, ast.List, ast.Set)):
+                    consts |= {e.value for e in c.elts
+                               if isinstance(e, ast.Constant)}
+                    hit = True
+            elif isinstance(n, ast.Call) and isinstance(
+                    n.func, ast.Attribute) and n.func.attr == 'startswith' \
+                    and n.args and isinstance(n.args[0], ast.Constant):
+                prefixes.add(n.args[0].value)
+                hit = True
+        return (consts, prefixes) if hit else None
+
+    def block(stmts):
+        ttype = None
+        decisions = []
+        for st in stmts:
+            if isinstance(st, ast.Assign):
+                tg = [norm(t) for t in st.targets]
+                if 'table_type' in tg and isinstance(st.value, ast.Constant):
+                    ttype = st.value.value
+                if 'col_name' in tg:
+                    if isinstance(st.value, ast.Constant):
+                        if st.value.value is not None:
+                            decisions.append(('const', {st.value.value},
+                                              set()))
+                    elif isinstance(st.value, ast.Call) and depth < 2:
+                        q = repo.resolve_expr(mod, st.value.func)
+                        h = repo.functions.get(repo.canon(q)) if q else None
+                        if h is not None:
+                            for (_t, k, c, p) in _name_rule(
+                                    repo, mod, h.node.body, depth + 1,
+                                    h.node):
+                                decisions.append((k, c, p))
+                # tuple-unpacked helper result: table, table_type, col_name
+                if isinstance(st.targets[0], ast.Tuple) and 'col_name' in [
+                        norm(e) for e in st.targets[0].elts] and isinstance(
+                        st.value, ast.Call) and depth < 2:
+                    q = repo.resolve_expr(mod, st.value.func)
+                    h = repo.functions.get(repo.canon(q)) if q else None
+                    if h is not None:
+                        out.extend(_name_rule(repo, mod, h.node.body,
+                                              depth + 1, h.node))
+            elif isinstance(st, ast.If):
+                nt = name_test(st.test)
+                assigns_col = any(
+                    isinstance(x, ast.Assign) and 'col_name' in [
+                        norm(t) for t in x.targets]
+                    for b in (st.body, st.orelse) for y in b
+                    for x in ast.walk(y)) or any(
+                    isinstance(x, ast.Return) for b in (st.body, st.orelse)
+                    for y in b for x in ast.walk(y))
+                tt = norm(st.test)
+                if fn_node is not None:
+                    from ..model import inline_locals
+                    tt = inline_locals(fn_node, st.test)
+                if nt is not None and assigns_col and 'shortname' in tt:
+                    decisions.append(('by-name', nt[0], nt[1]))
+                else:
+                    block(st.body)
+                    block(st.orelse)
+            elif isinstance(st, (ast.With, ast.For, ast.Try)):
+                block(getattr(st, 'body', []))
+        for k, c, p in decisions:
+            out.append((ttype, k, frozenset(c), frozenset(p)))
+
+    block(stmts)
+    return out
+
+
+def _r6(repo: Repo, ctx) -> None:
+    """DDL side and query-compiler side name the same column."""
+    ctx.floor('C05.R6', 3)
+    tm = repo.module(TYPES)
+    s_side = repo.func(f'{TYPES}.get_pointer_storage_info')
+    i_side = repo.func(f'{TYPES}._get_ptrref_storage_info')
+    ctx.saw(s_side)
+    ctx.saw(i_side)
+    S = _name_rule(repo, tm, s_side.node.body, 0, s_side.node)
+    I = _name_rule(repo, tm, i_side.node.body, 0, i_side.node)
+
+    def pick(rules, ttype, kind):
+        return [(c, p) for t, k, c, p in rules if t == ttype and k == kind]
+
+    # link@target is normalised to the link itself on the schema side
+    normalised = any(isinstance(n, ast.If) and "'std::target'" in norm(n.test)
+                     and any(norm(x) == 'pointer = source' for x in n.body)
+                     for n in ast.walk(s_side.node))
+    for ttype in ('ObjectType', 'link'):
+        a = pick(S, ttype, 'by-name')
+        b = pick(I, ttype, 'by-name')
+        if len(a) != 1 or len(b) != 1:
+            raise AnalysisError(
+                f'C05.R6: naming rule for {ttype} columns not recognised '
+                f'(schema side {a}, IR side {b})')
+        (sc, sp), (ic, ip) = a[0], b[0]
+        if ttype == 'link' and normalised:
+            sc = sc | {'target'}
+        ok = (set(sc), set(sp)) == (set(ic), set(ip))
+        ctx.ob('C05.R6', f'column-name:{ttype}', ok,
+               f'for columns of {ttype} tables the DDL side '
+               f'(get_pointer_storage_info) keeps the names '
+               f'{sorted(sc)} / prefixes {sorted(sp)} verbatim, the query '
+               f'compiler side (_get_ptrref_storage_info) keeps '
+               f'{sorted(ic)} / {sorted(ip)}: a pointer named by the '
+               f'difference is created under its id but addressed by name',
+               i_side.loc, sample=f'{sorted(ic)} + {sorted(ip)}')
+    a = pick(S, 'link', 'const')
+    b = pick(I, 'link', 'const')
+    ok = bool(a) and bool(b) and {tuple(c) for c, _ in a} == {
+        tuple(c) for c, _ in b} == {('target',)}
+    ctx.ob('C05.R6', 'column-name:link-table-target', ok,
+           f'the target column of a link table is named {a} by the DDL '
+           f'side and {b} by the query compiler side', i_side.loc,
+           sample="'target'")
+    # both sides decide "in the source table" / "own table" the same way
+    pairs = (('_pointer_storable_in_source', '_ptrref_storable_in_source'),
+             ('_pointer_storable_in_pointer', '_ptrref_storable_in_pointer'))
+    for sn_, in_ in pairs:
+        sf = repo.func(f'{TYPES}.{sn_}')
+        inf = repo.func(f'{TYPES}.{in_}')
+
+        def shape(f):
+            # the decision for a plain (non-union) pointer: last return
+            r = [x for x in ast.walk(f.node) if isinstance(x, ast.Return)]
+            r.sort(key=lambda x: x.lineno)
+            t = norm(r[-1].value) if r else ''
+            for a, b in (('pointer.singular(schema)', 'SINGLE'),
+                         ('ptrref.out_cardinality.is_single()', 'SINGLE'),
+                         ('ptrref.out_cardinality.is_multi()', 'not SINGLE'),
+                         ('pointer.has_user_defined_properties(schema)',
+                          'LPROPS'),
+                         ('ptrref.has_properties', 'LPROPS')):
+                t = t.replace(a, b)
+            return t.strip('()')
+        a_, b_ = shape(sf), shape(inf)
+        ctx.ob('C05.R6', f'storable:{sn_}', a_ == b_ and 'SINGLE' in a_,
+               f'{sn_} decides `{a_}` but {in_} decides `{b_}`: DDL and '
+               f'query compiler disagree on where the pointer lives',
+               inf.loc, sample=a_)
+
+
+def _r7(repo: Repo, ctx) -> None:
+    """"still needs its table" is asked of the schema after the command,
+    "had a table" of the schema before it: if / elif chains that ask
+    has_table() about one object under both schemas."""
+    ctx.floor('C05.R7', 1)
+    DM = 'edb.pgsql.delta'
+    m = repo.module(DM)
+    n = 0
+
+    def has_table_calls(t):
+        return [c for c in ast.walk(t) if isinstance(c, ast.Call)
+                and norm(c.func) == 'types.has_table' and len(c.args) >= 2]
+
+    def ops(body):
+        return {norm(c.func) for b in body for c in ast.walk(b)
+                if isinstance(c, ast.Call) and norm(c.func) in (
+                    'dbops.DropTable', 'dbops.AlterTableDropColumn')}
+
+    for f in repo._funcs_of(m):
+        ps = f.params()
+        if not ('schema' in ps and 'orig_schema' in ps):
+            continue
+        for t in ast.walk(f.node):
+            if not (isinstance(t, ast.If) and len(t.orelse) == 1
+                    and isinstance(t.orelse[0], ast.If)):
+                continue
+            a = has_table_calls(t.test)
+            b = has_table_calls(t.orelse[0].test)
+            for ca in a:
+                for cb in b:
+                    if norm(ca.args[0]) != norm(cb.args[0]):
+                        continue
+                    n += 1
+                    ctx.saw(f)
+                    first, second = norm(ca.args[1]), norm(cb.args[1])
+                    o1, o2 = ops(t.body), ops(t.orelse[0].body)
+                    ok = (first, second) == ('schema', 'orig_schema') and \
+                        'dbops.DropTable' not in o1 and \
+                        o2 == {'dbops.DropTable'}
+                    ctx.ob('C05.R7',
+                           f'{f.qualname}:has_table({norm(ca.args[0])})',
+                           ok,
+                           f'{f.qualname}: the arm that keeps the table and '
+                           f'drops a column asks has_table(.., {first}), '
+                           f'the arm that drops the table asks '
+                           f'has_table(.., {second}); expected the schema '
+                           f'after the command first (is the table still '
+                           f'needed?) and the schema before it second (was '
+                           f'there one?). Otherwise the table of a link '
+                           f'whose last property was removed is never '
+                           f'dropped, and re-adding a property fails with '
+                           f'"relation already exists"', f.loc,
+                           sample=f'{first} -> {sorted(o1)}; {second} -> '
+                                  f'{sorted(o2)}')
+    if n < 1:
+        raise AnalysisError('C05.R7: no has_table if/elif chain found')
+
+
+def _negated(test: ast.AST, node: ast.AST) -> bool:
+    for n in ast.walk(test):
+        if isinstance(n, ast.UnaryOp) and isinstance(n.op, ast.Not) and any(
+                x is node for x in ast.walk(n.operand)):
+            return True
+    return False
